@@ -73,9 +73,9 @@ Properties/C04.vos Properties/C04.vok Properties/C04.required_vos: Properties/C0
 Properties/C12.vo Properties/C12.glob Properties/C12.v.beautified Properties/C12.required_vo: Properties/C12.v Model/Types.vo Model/Book.vo Model/Obs.vo Spec/RefBook.vo Spec/Monitors.vo Proofs/Grid.vo Proofs/Refine.vo Proofs/Volumes.vo Proofs/LevelsAccount.vo Proofs/RestGrid.vo
 Properties/C12.vio: Properties/C12.v Model/Types.vio Model/Book.vio Model/Obs.vio Spec/RefBook.vio Spec/Monitors.vio Proofs/Grid.vio Proofs/Refine.vio Proofs/Volumes.vio Proofs/LevelsAccount.vio Proofs/RestGrid.vio
 Properties/C12.vos Properties/C12.vok Properties/C12.required_vos: Properties/C12.v Model/Types.vos Model/Book.vos Model/Obs.vos Spec/RefBook.vos Spec/Monitors.vos Proofs/Grid.vos Proofs/Refine.vos Proofs/Volumes.vos Proofs/LevelsAccount.vos Proofs/RestGrid.vos
-Properties/C13.vo Properties/C13.glob Properties/C13.v.beautified Properties/C13.required_vo: Properties/C13.v Model/Types.vo Model/Side.vo Model/Book.vo Model/Obs.vo Model/Rng.vo Model/Env.vo Proofs/NoTrade.vo Proofs/MarketNoTrade.vo
-Properties/C13.vio: Properties/C13.v Model/Types.vio Model/Side.vio Model/Book.vio Model/Obs.vio Model/Rng.vio Model/Env.vio Proofs/NoTrade.vio Proofs/MarketNoTrade.vio
-Properties/C13.vos Properties/C13.vok Properties/C13.required_vos: Properties/C13.v Model/Types.vos Model/Side.vos Model/Book.vos Model/Obs.vos Model/Rng.vos Model/Env.vos Proofs/NoTrade.vos Proofs/MarketNoTrade.vos
+Properties/C13.vo Properties/C13.glob Properties/C13.v.beautified Properties/C13.required_vo: Properties/C13.v Model/Types.vo Model/Side.vo Model/Book.vo Model/Obs.vo Model/Rng.vo Model/Env.vo Spec/RefBook.vo Proofs/NoTrade.vo Proofs/MarketNoTrade.vo Proofs/Refine.vo Proofs/Volumes.vo Proofs/FlagRef.vo
+Properties/C13.vio: Properties/C13.v Model/Types.vio Model/Side.vio Model/Book.vio Model/Obs.vio Model/Rng.vio Model/Env.vio Spec/RefBook.vio Proofs/NoTrade.vio Proofs/MarketNoTrade.vio Proofs/Refine.vio Proofs/Volumes.vio Proofs/FlagRef.vio
+Properties/C13.vos Properties/C13.vok Properties/C13.required_vos: Properties/C13.v Model/Types.vos Model/Side.vos Model/Book.vos Model/Obs.vos Model/Rng.vos Model/Env.vos Spec/RefBook.vos Proofs/NoTrade.vos Proofs/MarketNoTrade.vos Proofs/Refine.vos Proofs/Volumes.vos Proofs/FlagRef.vos
 Proofs/Ledger.vo Proofs/Ledger.glob Proofs/Ledger.v.beautified Proofs/Ledger.required_vo: Proofs/Ledger.v Model/Types.vo Model/Map.vo Model/Side.vo Model/Book.vo Proofs/Basic.vo
 Proofs/Ledger.vio: Proofs/Ledger.v Model/Types.vio Model/Map.vio Model/Side.vio Model/Book.vio Proofs/Basic.vio
 Proofs/Ledger.vos Proofs/Ledger.vok Proofs/Ledger.required_vos: Proofs/Ledger.v Model/Types.vos Model/Map.vos Model/Side.vos Model/Book.vos Proofs/Basic.vos
@@ -94,9 +94,9 @@ Properties/C10.vos Properties/C10.vok Properties/C10.required_vos: Properties/C1
 Properties/C11.vo Properties/C11.glob Properties/C11.v.beautified Properties/C11.required_vo: Properties/C11.v Model/Types.vo Model/Book.vo Model/Obs.vo Model/Rng.vo Model/Env.vo Model/EnvObs.vo Proofs/EnvProps.vo Proofs/Ledger.vo Proofs/StepVolume.vo
 Properties/C11.vio: Properties/C11.v Model/Types.vio Model/Book.vio Model/Obs.vio Model/Rng.vio Model/Env.vio Model/EnvObs.vio Proofs/EnvProps.vio Proofs/Ledger.vio Proofs/StepVolume.vio
 Properties/C11.vos Properties/C11.vok Properties/C11.required_vos: Properties/C11.v Model/Types.vos Model/Book.vos Model/Obs.vos Model/Rng.vos Model/Env.vos Model/EnvObs.vos Proofs/EnvProps.vos Proofs/Ledger.vos Proofs/StepVolume.vos
-Properties/C14.vo Properties/C14.glob Properties/C14.v.beautified Properties/C14.required_vo: Properties/C14.v Model/Types.vo Model/Book.vo Model/Obs.vo Model/Rng.vo Model/Env.vo Spec/RefBook.vo Proofs/EnvProps.vo Proofs/Refine.vo Proofs/Volumes.vo Proofs/MarketInv.vo
-Properties/C14.vio: Properties/C14.v Model/Types.vio Model/Book.vio Model/Obs.vio Model/Rng.vio Model/Env.vio Spec/RefBook.vio Proofs/EnvProps.vio Proofs/Refine.vio Proofs/Volumes.vio Proofs/MarketInv.vio
-Properties/C14.vos Properties/C14.vok Properties/C14.required_vos: Properties/C14.v Model/Types.vos Model/Book.vos Model/Obs.vos Model/Rng.vos Model/Env.vos Spec/RefBook.vos Proofs/EnvProps.vos Proofs/Refine.vos Proofs/Volumes.vos Proofs/MarketInv.vos
+Properties/C14.vo Properties/C14.glob Properties/C14.v.beautified Properties/C14.required_vo: Properties/C14.v Model/Types.vo Model/Book.vo Model/Obs.vo Model/Rng.vo Model/Env.vo Spec/RefBook.vo Proofs/EnvProps.vo Proofs/Refine.vo Proofs/Volumes.vo Proofs/MarketInv.vo Proofs/AssetProjection.vo
+Properties/C14.vio: Properties/C14.v Model/Types.vio Model/Book.vio Model/Obs.vio Model/Rng.vio Model/Env.vio Spec/RefBook.vio Proofs/EnvProps.vio Proofs/Refine.vio Proofs/Volumes.vio Proofs/MarketInv.vio Proofs/AssetProjection.vio
+Properties/C14.vos Properties/C14.vok Properties/C14.required_vos: Properties/C14.v Model/Types.vos Model/Book.vos Model/Obs.vos Model/Rng.vos Model/Env.vos Spec/RefBook.vos Proofs/EnvProps.vos Proofs/Refine.vos Proofs/Volumes.vos Proofs/MarketInv.vos Proofs/AssetProjection.vos
 Properties/C15.vo Properties/C15.glob Properties/C15.v.beautified Properties/C15.required_vo: Properties/C15.v Model/Types.vo Model/Rng.vo Model/Env.vo Proofs/EnvProps.vo Proofs/Uniform.vo
 Properties/C15.vio: Properties/C15.v Model/Types.vio Model/Rng.vio Model/Env.vio Proofs/EnvProps.vio Proofs/Uniform.vio
 Properties/C15.vos Properties/C15.vok Properties/C15.required_vos: Properties/C15.v Model/Types.vos Model/Rng.vos Model/Env.vos Proofs/EnvProps.vos Proofs/Uniform.vos
@@ -181,6 +181,12 @@ Proofs/StepVolume.vos Proofs/StepVolume.vok Proofs/StepVolume.required_vos: Proo
 Proofs/MarketNoTrade.vo Proofs/MarketNoTrade.glob Proofs/MarketNoTrade.v.beautified Proofs/MarketNoTrade.required_vo: Proofs/MarketNoTrade.v Model/Types.vo Model/Map.vo Model/Side.vo Model/Book.vo Model/Obs.vo Model/Rng.vo Model/Env.vo Proofs/Basic.vo Proofs/NoTrade.vo Proofs/StepVolume.vo
 Proofs/MarketNoTrade.vio: Proofs/MarketNoTrade.v Model/Types.vio Model/Map.vio Model/Side.vio Model/Book.vio Model/Obs.vio Model/Rng.vio Model/Env.vio Proofs/Basic.vio Proofs/NoTrade.vio Proofs/StepVolume.vio
 Proofs/MarketNoTrade.vos Proofs/MarketNoTrade.vok Proofs/MarketNoTrade.required_vos: Proofs/MarketNoTrade.v Model/Types.vos Model/Map.vos Model/Side.vos Model/Book.vos Model/Obs.vos Model/Rng.vos Model/Env.vos Proofs/Basic.vos Proofs/NoTrade.vos Proofs/StepVolume.vos
+Proofs/FlagRef.vo Proofs/FlagRef.glob Proofs/FlagRef.v.beautified Proofs/FlagRef.required_vo: Proofs/FlagRef.v Model/Types.vo Model/Map.vo Model/Side.vo Model/Book.vo Model/Obs.vo Spec/RefBook.vo Proofs/Basic.vo Proofs/Refine.vo Proofs/Volumes.vo Proofs/Reload.vo
+Proofs/FlagRef.vio: Proofs/FlagRef.v Model/Types.vio Model/Map.vio Model/Side.vio Model/Book.vio Model/Obs.vio Spec/RefBook.vio Proofs/Basic.vio Proofs/Refine.vio Proofs/Volumes.vio Proofs/Reload.vio
+Proofs/FlagRef.vos Proofs/FlagRef.vok Proofs/FlagRef.required_vos: Proofs/FlagRef.v Model/Types.vos Model/Map.vos Model/Side.vos Model/Book.vos Model/Obs.vos Spec/RefBook.vos Proofs/Basic.vos Proofs/Refine.vos Proofs/Volumes.vos Proofs/Reload.vos
+Proofs/AssetProjection.vo Proofs/AssetProjection.glob Proofs/AssetProjection.v.beautified Proofs/AssetProjection.required_vo: Proofs/AssetProjection.v Model/Types.vo Model/Map.vo Model/Side.vo Model/Book.vo Model/Obs.vo Model/Rng.vo Model/Env.vo Proofs/Basic.vo Proofs/EnvProps.vo
+Proofs/AssetProjection.vio: Proofs/AssetProjection.v Model/Types.vio Model/Map.vio Model/Side.vio Model/Book.vio Model/Obs.vio Model/Rng.vio Model/Env.vio Proofs/Basic.vio Proofs/EnvProps.vio
+Proofs/AssetProjection.vos Proofs/AssetProjection.vok Proofs/AssetProjection.required_vos: Proofs/AssetProjection.v Model/Types.vos Model/Map.vos Model/Side.vos Model/Book.vos Model/Obs.vos Model/Rng.vos Model/Env.vos Proofs/Basic.vos Proofs/EnvProps.vos
 Properties/C01.vo Properties/C01.glob Properties/C01.v.beautified Properties/C01.required_vo: Properties/C01.v Model/Types.vo Model/Map.vo Model/Side.vo Model/Book.vo Model/Obs.vo Spec/RefBook.vo Proofs/Ledger.vo Proofs/Refine.vo Proofs/RefProps.vo Proofs/Volumes.vo Proofs/Reload.vo Proofs/Progress.vo
 Properties/C01.vio: Properties/C01.v Model/Types.vio Model/Map.vio Model/Side.vio Model/Book.vio Model/Obs.vio Spec/RefBook.vio Proofs/Ledger.vio Proofs/Refine.vio Proofs/RefProps.vio Proofs/Volumes.vio Proofs/Reload.vio Proofs/Progress.vio
 Properties/C01.vos Properties/C01.vok Properties/C01.required_vos: Properties/C01.v Model/Types.vos Model/Map.vos Model/Side.vos Model/Book.vos Model/Obs.vos Spec/RefBook.vos Proofs/Ledger.vos Proofs/Refine.vos Proofs/RefProps.vos Proofs/Volumes.vos Proofs/Reload.vos Proofs/Progress.vos
